@@ -60,7 +60,21 @@ def _aliased(f, m):
     return r
 
 
-NAMESPACE = {"shuffle": _shuffle, "aliased": _aliased}
+# labels of other *types* than int: a tuple, a string, a proper float; IDs: a tuple, a string, a numpy integer
+TA, SB, FC = (0, "t"), "b", 2.5
+ET, ES = (1, "e"), "x"
+
+
+def _np3():
+    import numpy as np
+
+    return np.int64(3)
+
+
+EF, EB = frozenset({"f"}), b"y"  # hashable IDs that are neither numbers nor strings
+
+NAMESPACE = {"shuffle": _shuffle, "aliased": _aliased, "TA": TA, "SB": SB, "FC": FC, "ET": ET, "ES": ES, "NP3": _np3(),
+             "EF": EF, "EB": EB}
 
 
 def namespace():
@@ -169,6 +183,139 @@ def hypergraph_static(level="full"):
     A("xgi.convert_labels_to_integers(H, in_place=True)")
     A("xgi.convert_labels_to_integers(H, label_attribute='old', in_place=True)")
     A("xgi.largest_connected_hypergraph(H, in_place=True)")
+    return ops
+
+
+def hypergraph_exotic():
+    """The same edit vocabulary over labels of other types (names bound in NAMESPACE).  Members are given as sets or
+    as lists of non-iterable / all-string labels wherever a list of tuple labels would be read as a positional bulk
+    format (DESIGN.md 9.2)."""
+    ops = []
+    A = ops.append
+    for n in ("TA", "SB", "FC"):
+        A(f"H.add_node({n})")
+        A(f"H.remove_node({n})")
+        A(f"H.remove_node({n}, strong=True)")
+        A(f"H.remove_node({n}, remove_empty=False)")
+    A("H.add_nodes_from([TA, FC])")
+    A("H.add_nodes_from([(TA, {'c': 1}), SB])")
+    for m in ("[TA]", "[TA, SB]", "{SB, FC}", "[TA, SB, FC]", "(FC, TA)"):
+        A(f"H.add_edge({m})")
+    A("H.add_edge([TA, SB], idx=ET)")
+    A("H.add_edge([SB, FC], idx=ES)")
+    A("H.add_edge([TA, FC], idx=0)")
+    A("H.add_edge([TA, FC], idx=NP3)")
+    A("H.add_edge([FC], idx=3)")
+    A("H.add_edge([TA, SB], idx=EF)")
+    A("H.add_edge([SB], idx=EB)")
+    A("H.add_edges_from({EF: [TA], EB: [SB, FC]})")
+    A("H.add_edges_from([({TA, SB}, EF), ({FC}, EB)])")
+    A("H.add_node_to_edge(EF, FC)")
+    A("H.remove_edge(EF)")
+    A("H.add_edges_from([{TA, SB}, {SB, FC}])")
+    A("H.add_edges_from([{TA}, {TA, SB, FC}])")
+    A("H.add_edges_from([[SB, 'c'], [SB]])")
+    A("H.add_edges_from([[FC, SB], [FC]])")
+    A("H.add_edges_from({ET: [TA, SB], ES: [FC]})")
+    A("H.add_edges_from({0: {TA, FC}, NP3: {SB}})")
+    A("H.add_edges_from([({TA, SB}, ES), ({FC}, ET)])")
+    A("H.add_edges_from([({TA, SB}, {'w': 1}), ({FC, TA}, {'w': 2})])")
+    A("H.add_edges_from([({TA, SB}, ET, {'w': 1}), ({SB}, NP3, {})])")
+    A("aliased(lambda m: H.add_edges_from({ET: m}), {TA, SB})")
+    for e in ("ET", "ES", "0", "NP3"):
+        A(f"H.remove_edge({e})")
+        A(f"H.add_node_to_edge({e}, FC)")
+        A(f"H.add_node_to_edge({e}, TA)")
+    A("H.remove_edges_from([ET, 0])")
+    A("H.remove_nodes_from([TA, FC])")
+    A("H.clear_edges()")
+    A("H.merge_duplicate_edges()")
+    A("H.merge_duplicate_edges(rename='tuple', merge_rule='union')")
+    A("H.merge_duplicate_edges(rename='new')")
+    A("H.set_node_attributes({TA: {'c': 1}, SB: {'c': 2}})")
+    A("H.set_edge_attributes({ET: {'w': 2}, 0: {'w': 3}})")
+    A("H.cleanup()")
+    A("H.cleanup(relabel=False)")
+    A("H.cleanup(isolates=True, singletons=True, multiedges=True, relabel=False)")
+    A("xgi.convert_labels_to_integers(H, label_attribute='old', in_place=True)")
+    return ops
+
+
+def dihypergraph_exotic():
+    ops = []
+    A = ops.append
+    for n in ("TA", "SB", "FC"):
+        A(f"H.add_node({n})")
+        A(f"H.remove_node({n})")
+        A(f"H.remove_node({n}, strong=True)")
+        A(f"H.remove_node({n}, remove_empty=False)")
+    A("H.add_nodes_from([TA, FC])")
+    for t, h in (("[TA]", "[SB]"), ("{TA, SB}", "{FC}"), ("[FC]", "[TA, SB]"), ("[TA, SB]", "[SB, FC]"), ("[SB]", "[SB]"),
+                 ("[FC]", "[]"), ("[]", "[TA]")):
+        A(f"H.add_edge(({t}, {h}))")
+    A("H.add_edge(([TA], [SB]), idx=ET)")
+    A("H.add_edge(([SB, FC], [TA]), idx=ES)")
+    A("H.add_edge(([TA], [FC]), idx=0)")
+    A("H.add_edge(([FC], [TA]), idx=NP3)")
+    A("H.add_edge(([FC], [SB]), idx=3)")
+    A("H.add_edge(([TA], [SB]), idx=EF)")
+    A("H.add_edges_from({EF: ([TA], [FC]), EB: ([SB], [])})")
+    A("H.add_edges_from([(([TA], [SB]), ES), (([SB], [TA]), EB)])")
+    A("H.add_node_to_edge(EF, FC, 'in')")
+    A("H.remove_edge(EF)")
+    A("H.add_edges_from([([TA], [SB]), ({SB, FC}, {TA})])")
+    A("H.add_edges_from([(([TA], [SB]), ES), (([FC], [TA]), ET)])")
+    A("H.add_edges_from([(([TA], [SB]), {'w': 1})])")
+    A("H.add_edges_from([(([TA], [SB]), ET, {'w': 1}), (([SB], []), NP3, {})])")
+    A("H.add_edges_from({ET: ([TA], [SB]), ES: ([SB, FC], [TA])})")
+    A("H.add_edges_from({0: ({TA}, {FC}), NP3: ([SB], [])})")
+    for e in ("ET", "ES", "0", "NP3"):
+        A(f"H.remove_edge({e})")
+        A(f"H.add_node_to_edge({e}, FC, 'in')")
+        A(f"H.add_node_to_edge({e}, TA, 'out')")
+    A("H.remove_edges_from([ET, 0])")
+    A("H.remove_nodes_from([TA, FC])")
+    A("H.set_edge_attributes({ET: {'w': 2}, 0: {'w': 3}})")
+    A("H.cleanup()")
+    A("H.cleanup(relabel=False)")
+    return ops
+
+
+def simplicial_exotic():
+    ops = []
+    A = ops.append
+    for n in ("TA", "SB", "FC"):
+        A(f"H.add_node({n})")
+        A(f"H.remove_node({n})")
+    A("H.add_nodes_from([TA, FC])")
+    for m in ("[TA]", "[TA, SB]", "{SB, FC}", "[TA, SB, FC]", "(FC, TA)"):
+        A(f"H.add_simplex({m})")
+    A("H.add_simplex([TA, SB], idx=ET)")
+    A("H.add_simplex([SB, FC], idx=ES)")
+    A("H.add_simplex([TA, SB, FC], idx=0)")
+    A("H.add_simplex([TA, FC], idx=NP3)")
+    A("H.add_simplex([FC, SB], idx=3)")
+    A("H.add_simplex([TA, SB], idx=EF)")
+    A("H.add_simplices_from({EF: [TA, FC], EB: [SB, FC, TA]})")
+    A("H.add_simplices_from([({TA, SB}, EB)])")
+    A("H.remove_simplex_id(EF)")
+    A("H.add_simplices_from([{TA, SB}, {SB, FC}])")
+    A("H.add_simplices_from([{TA, SB, FC}])")
+    A("H.add_simplices_from([{TA, SB, FC}], max_order=1)")
+    A("H.add_simplices_from([[SB, 'c', 'd'], [SB]])")
+    A("H.add_simplices_from({ET: [TA, SB], ES: [FC, SB, TA]})")
+    A("H.add_simplices_from({ET: {TA, SB, FC}}, max_order=1)")
+    A("H.add_simplices_from([({TA, SB}, ES), ({FC, TA, SB}, ET)])")
+    A("H.add_simplices_from([({TA, SB}, {'w': 1})])")
+    A("H.add_simplices_from([({TA, SB, FC}, ET, {'w': 1}), ({SB}, NP3, {})])")
+    for e in ("ET", "ES", "0", "NP3", "1"):
+        A(f"H.remove_simplex_id({e})")
+    A("H.remove_simplex_ids_from([ET, 0])")
+    A("H.remove_nodes_from([TA, FC])")
+    A("H.close()")
+    A("H.set_edge_attributes({ET: {'w': 2}, 0: {'w': 3}})")
+    A("H.cleanup()")
+    A("H.cleanup(relabel=False)")
     return ops
 
 
@@ -432,6 +579,12 @@ def simplicial_static():
     A("H.add_simplices_from([[1, 2, 3], [4, 3, 2]])")
     A("H.add_simplices_from([([3, 1, 2], 7), ([2, 1, 4], 3)], max_order=1)")
     A("H.add_simplices_from({6: [4, 3, 2, 1], 1: [1, 3, 4]}, max_order=2)")
+    # explicit integer IDs out of order (or followed by a non-integer ID), with enough generated faces for the automatic
+    # IDs to reach the larger explicit ID
+    A("H.add_simplices_from({5: [1, 2, 3], 2: [3, 4, 5]})")
+    A("H.add_simplices_from({4: [1, 2, 3], 'e': [2, 3, 4]})")
+    A("H.add_simplices_from([([1, 2, 3], 5), ([3, 4, 5], 2)])")
+    A("H.add_simplices_from([([1, 2, 3], 4, {}), ([2, 3, 4], 'e', {'w': 1})])")
     A("H.add_simplex([3, 2, 1])")
     A("aliased(lambda m: H.add_simplices_from({'a': m, 'b': [2, 4]}), {1, 2, 4})")
     A("aliased(lambda m: H.add_simplices_from([m, [3, 4]]), [1, 2])")
